@@ -15,12 +15,32 @@ DOMAINS_FOR = {
 }
 
 
+REPO = os.environ.get('VERIF_REPO', '/repo')
+
+
 def _exe():
-    env = dict(os.environ, CARGO_NET_OFFLINE='true', CARGO_TARGET_DIR=os.path.join(CACHE, 'witness-target'))
-    p = subprocess.run(['cargo', 'build', '--release', '--offline'], cwd=os.path.join(ROOT, 'witness'), env=env, capture_output=True, text=True)
+    """Build the witness crate against the current working tree of REPO (path dependencies)."""
+    import hashlib
+    import shutil
+    tag = hashlib.sha256(REPO.encode()).hexdigest()[:8]
+    src = os.path.join(ROOT, 'witness')
+    crate = src
+    if REPO != '/repo':
+        # same sources, path dependencies pointed at the alternative tree
+        crate = os.path.join(CACHE, 'witness-src-' + tag)
+        os.makedirs(os.path.join(crate, 'src'), exist_ok=True)
+        for f in os.listdir(os.path.join(src, 'src')):
+            shutil.copyfile(os.path.join(src, 'src', f), os.path.join(crate, 'src', f))
+        toml = open(os.path.join(src, 'Cargo.toml')).read().replace('/repo/', REPO.rstrip('/') + '/')
+        open(os.path.join(crate, 'Cargo.toml'), 'w').write(toml)
+        if os.path.exists(os.path.join(src, 'Cargo.lock')):
+            shutil.copyfile(os.path.join(src, 'Cargo.lock'), os.path.join(crate, 'Cargo.lock'))
+    target = os.path.join(CACHE, 'witness-target' + ('' if REPO == '/repo' else '-' + tag))
+    env = dict(os.environ, CARGO_NET_OFFLINE='true', CARGO_TARGET_DIR=target)
+    p = subprocess.run(['cargo', 'build', '--release', '--offline'], cwd=crate, env=env, capture_output=True, text=True)
     if p.returncode != 0:
-        raise RuntimeError('witness crate does not build against the current /repo: ' + p.stderr[-1200:])
-    return os.path.join(CACHE, 'witness-target', 'release', 'witness')
+        raise RuntimeError('witness crate does not build against the current tree: ' + p.stderr[-1200:])
+    return os.path.join(target, 'release', 'witness')
 
 
 def run_search(domain, seed=1, timeout=900):
